@@ -685,8 +685,10 @@ def gaussian_exact_cases(ctx, cases):
     rng = ctx.rng
     k = 0
     for n in ((3, 4) if not ctx.thorough else (2, 3, 4, 5)):
-        for shape, fmt in (("diag", None), ("upper", None), ("lower", None), ("vector", None), ("upper", "csr"), ("lower", "csc"),
-                           ("diag", "dia"), ("upper", "coo")):
+        # sparse LU (SuperLU) is not exact to the last bit even on triangular dyadic matrices (observed 1 ulp on a 5 x 5 lower
+        # CSC matrix), so the sparse EXACT cells are the diagonal ones; dense triangular solves are exact
+        for shape, fmt in (("diag", None), ("upper", None), ("lower", None), ("vector", None), ("diag", "csr"), ("diag", "dia"),
+                           ("diag", "coo")):
             for rep in range(ctx.n(1, 3)):
                 k += 1
                 if shape == "vector":
